@@ -10,6 +10,9 @@ import traceback
 import warnings
 
 warnings.filterwarnings("ignore")
+# Large generated designs (thorough tier) give expression trees deeper than CPython's default limit of 1000 frames;
+# hitting that limit is a resource limit of the harness process, not an observation about /repo.
+sys.setrecursionlimit(max(sys.getrecursionlimit(), 30000))
 
 from .common import Check, InfraError  # noqa: E402
 
